@@ -25,6 +25,7 @@ def shOrd (o : Ord) : String := joinSp [statusStr o.status, toString o.filled, s
 
 def cmdMatch (toks : Toks) : Option String :=
   match toks with
+  | ["ROUNDPX", l, t] => some (toString (roundPrice (pN l) (pN t)))
   | "MATCH" :: pl :: il :: vl :: vp :: slipK :: rate :: tick :: rest =>
       let slip : Slip := if slipK == "ratio" then .priceRatio (pF rate) else if slipK == "tick" then .tickSize (pF rate) (pF tick) else .limitPrice
       let cfg : MCfg := { priceLimit := pB pl, inactiveLimit := pB il, volumeLimit := pB vl, volumePercent := pF vp, slip := slip }
